@@ -30,7 +30,7 @@ def corpus():
     return [
         # expire() purges the identity map entry (open finding)
         {'cfg': {'cache': True, 'freq': 100, 'frac': 2}, 'ops': [['create', 0, [[1, 100]]], ['expire', 0], ['get', 0, 1]]},
-        # cache=False: a destroyed row is handed out again (open finding)
+        # fixed: cache=False: a destroyed row was handed out again
         {'cfg': {'cache': False, 'freq': 100, 'frac': 2}, 'ops': [['create', 0, [[1, 100]]], ['destroy', 0], ['get', 0, 1]]},
         # unpickling a destroyed row registers it again (open finding)
         {'cfg': {'cache': True, 'freq': 100, 'frac': 2},
@@ -115,8 +115,6 @@ def classify(case, obs, f):
         return 'expire_purges_identity_map'
     if f.get('resurrected'):
         return 'unpickle_registers_destroyed_row'
-    if f.get('destroyed') and not f.get('cache'):
-        return 'nocache_destroyed_row_still_handed_out'
     return None
 
 
